@@ -150,6 +150,10 @@ class Engine:
         elif mode == "sparse":
             for op in ops:
                 op["q"] = rng.sample(universe, rng.choice([0, 0, 1, 1, 2, 3]))
+                # also whether canonical_variables / iteration are read after this operation, and on which replicas anything
+                # is looked at at all (an unobserved replica keeps whatever lazily maintained state it has)
+                op["cv"] = rng.random() < 0.3
+                op["reps"] = rng.choice(["all", "target", "target", "none"])
         plan["obs"] = mode
         return plan
 
@@ -173,13 +177,18 @@ class Engine:
                     p = _copy.deepcopy(plan)
                     del p["ops"][i]["q"][j]
                     yield p
+            if "cv" in op and op["cv"]:
+                p = _copy.deepcopy(plan)
+                p["ops"][i]["cv"] = False
+                yield p
         if plan.get("final_order") and plan["final_order"] != sorted(plan["final_order"]):
             p = _copy.deepcopy(plan)
             p["final_order"] = sorted(p["final_order"])
             yield p
 
-    def check(self, impl, ref, universe):
-        """Returns None or (what, detail)."""
+    def check(self, impl, ref, universe, structure=True):
+        """Returns None or (what, detail).  structure=False: only the look-ups of the given names (aliases,
+        canonical_signed); canonical_variables and iteration are not read."""
         canon_of = {}
         for v in universe:
             got = set(impl.aliases(v))
@@ -202,6 +211,8 @@ class Engine:
             if canon_of.setdefault(key, c) != c:
                 return "canonical_signed", "members of one class have different canonical names: %s and %s" % (
                     canon_of[key], c)
+        if not structure:
+            return None
         # exactly one canonical name per non-trivial class (decided without further look-ups: a query may not be
         # free of side effects), and the names canonical_signed gave are among them
         got_canon = set(impl.canonical_variables)
@@ -283,7 +294,10 @@ class Engine:
             if before or ref.abstract():
                 pairs.add(canon.digest((before, k, op.get("a"), op.get("b"))))
             for ri in range(len(impls)):
-                bad = self.check(impls[ri], refs[ri], op["q"] if "q" in op else universe)
+                is_target = ri == rep or (k == "copy" and ri == len(impls) - 1)
+                if op.get("reps") == "none" or (op.get("reps") == "target" and not is_target):
+                    continue
+                bad = self.check(impls[ri], refs[ri], op["q"] if "q" in op else universe, op.get("cv", True))
                 if bad:
                     side = "target" if ri == rep or (k == "copy" and ri == len(impls) - 1) else "other_replica"
                     viol = ("wrong_" + bad[0], "alias_relation:" + k, [k, side],
